@@ -255,6 +255,43 @@ func runCopy(mode string, seed int64, tier string, sc *Script) map[string]any {
 		exec(cc, caseNo)
 		caseNo++
 	}
+	// C02: a failing node shared by several parents that sit in different errgroups: the
+	// other parents must not proceed as if the shared node had completed.  Whether a
+	// defective wake-up wins the race against the cancellation is a matter of scheduling,
+	// so the scenario is repeated many times.
+	if mode == "C02" {
+		reps := 300
+		if tier == "thorough" {
+			reps = 6000
+		}
+		for i := 0; i < reps; i++ {
+			u := NewUniverse()
+			cfgB := u.AddBlob(ocispec.MediaTypeImageConfig, []byte(fmt.Sprintf("{\"i\":%d}", i)))
+			shared := u.AddBlob(ocispec.MediaTypeImageLayer, []byte(fmt.Sprintf("shared-%d", i)))
+			var parents []int
+			np := 2 + rng.Intn(4)
+			for k := 0; k < np; k++ {
+				own := u.AddBlob(ocispec.MediaTypeImageLayer, []byte(fmt.Sprintf("own-%d-%d", i, k)))
+				m := u.AddImage(KOCIManifest, cfgB.ID, []int{own.ID, shared.ID}, -1, "", map[string]string{"k": fmt.Sprint(k)})
+				parents = append(parents, m.ID)
+			}
+			// nest half of the parents one level deeper so that they sit in another group
+			var top []int
+			for k, pid := range parents {
+				if k%2 == 1 {
+					top = append(top, u.AddIndex(KOCIIndex, []int{pid}, -1, "", map[string]string{"w": fmt.Sprint(k)}).ID)
+				} else {
+					top = append(top, pid)
+				}
+			}
+			root := u.AddIndex(KOCIIndex, top, -1, "", map[string]string{"root": fmt.Sprint(i)})
+			op := []string{"push", "fetch", "preCopy", "postCopy", "exists"}[rng.Intn(5)]
+			cc := copyCase{u: u, roots: []int{root.ID}, dst: []dstKind{"memory", "oci"}[rng.Intn(2)], conc: 2 + rng.Intn(4),
+				faults: []fault{{op: op, node: shared.ID, mode: "before"}}, label: "shared-failing-kid"}
+			exec(cc, caseNo)
+			caseNo++
+		}
+	}
 	// C02: exhaustive single faults on small graphs
 	if mode == "C02" {
 		graphs := 2
